@@ -106,6 +106,39 @@ CLAIMED = {
         design="DESIGN.md §5 C12, §10",
         technique="Coq proofs over an object state machine on the C02 semantics + program correspondence",
         note="Trusted: as C02. Partial: a coroutine head started on another executor (ToFuture(e)) has correspondence only, no theorem."),
+    "C17": dict(
+        text="Executable model of the FIBER scheduler + injector (Sched.v: run queue, sleep map, virtual clock, PollRandomElementFromList/"
+             "GetElement wrap-around, injector counter, weak-CAS failures, FiberQueue park/notify, timed waits, spawn/join/exit; engine outputs "
+             "and id allocator are Section variables). Machine-checked for all programs/configurations/steps: the trace is equivariant under "
+             "any injective renaming of fiber ids, invariant under a shift of the clock and all deadlines, after a quiescent point determined "
+             "by (random count, injector state) alone up to those two and the fiber counter (what ForwardToFaultRandomCount/SetInjectorState "
+             "restore), draws are consumed consecutively from the recorded count and nothing before it is read; clock monotone, no fiber linked "
+             "in two queues, no sleeper resumed before its deadline (structural invariant). Tied to the code without taking any decision: a "
+             "recorder (resume hook + choose hook returning -1) on the real library, Sched.run fed with std::mt19937_64(seed) outputs must "
+             "predict every token, recorded (count,state) pair, virtual time and result; oracle = pairwise trace equality of reruns in the same "
+             "process, in a fresh process and restored from every recorded pair, on DSL programs and 5 real clients.",
+        design="DESIGN.md §5 C17, §10",
+        technique="Coq simulation + invariant proofs over an executable scheduler model; observation-only trace prediction (vm_compute) + "
+                  "rerun/restore differential oracle on the real library",
+        note="Trusted: Coq kernel + vm_compute; the recorder harness; partial by design: ucontext, libstdc++'s mt19937_64 and the clients' own "
+             "determinism (the harness never frees memory so pointer-CAS retries cannot depend on heap history) are outside the model."),
+    "C14": dict(
+        text="Machine-checked invariant of the CoMutex transition system (one atomic operation on the sender word per step; any number of "
+             "coroutines, rounds, executors and workers; the four <Batching,FIFO> options as parameters) proves: at most one lock token (owner, "
+             "hand-over in flight or release in progress) and it exists iff the word is not kNotLocked; TryLock and the locking CASes succeed "
+             "only when the mutex is free; each request granted at most once, nobody queued or handed twice; every parked coroutine is in "
+             "exactly one place of sender/receiver list and on no worker; every running coroutine and release procedure has its next step "
+             "enabled (GetHead never returns null, the resumed coroutine is suspended); quiescent implies free, lists empty, all finished; "
+             "nobody is bypassed in the lists; FIFO=true implies entries in arrival order; progress with a single worker. Tied to the code by "
+             "exploring the real yaclib::Mutex used by coroutines on FairThreadPool(1|2) and an instrumented manual executor plus a bystander "
+             "TryLock thread (exhaustive DFS for k=2,r=1 and k=3 on one worker incl. a spurious weak-CAS failure, named-yield exhaustive on two "
+             "workers for selected forms, preemption-bounded DFS and seeded random programs otherwise); every distinct trace is replayed "
+             "through the model in Coq and must be accepted with equal critical-section order, TryLock answers and final quiescence.",
+        design="DESIGN.md §5 C14, Appendix A.3, §10",
+        technique="Coq invariant proof over an executable LTS + trace correspondence (vm_compute replay) + in-harness oracle",
+        note="Trusted: as C01. Temporal liveness (fair scheduling implies eventual grant) is stated as deadlock-freedom + enabledness + "
+             "no-bypass invariants, not as a temporal theorem; two-worker exploration is exhaustive only for named yield points / selected "
+             "form pairs; visibility between critical sections is C04's."),
 }
 
 PENDING = {}
